@@ -418,6 +418,13 @@ class List(list, base.Symbolic, pg_typing.CustomTyping):
       if old_value is value:
         return None
 
+    if (old_value is pg_typing.MISSING_VALUE
+        and isinstance(value, base.Symbolic)
+        and value.sym_parent is self):
+      # A new slot is added for a node that is already an element of this
+      # list: store a copy, so the node does not appear in two places.
+      value = value.clone()
+
     new_value = self._formalized_value(index, value)
     if index < len(self):
       if should_insert:
